@@ -6,6 +6,7 @@ Driver of C13.  Ops (one per line):
 
 * `tbs  <buf> <prev|~> <first> <rdok>`                                   `signed_bitmessage_to_buf`
 * `vmb  <signer> <buf> <prev|~> <first> <rdok>`                          `TSigner::verify_message_byte`
+* `ssm  <buf>`                                                            `TSigner::should_sign_message`
 * `stbs <signer> <reqmac> <resp> <oid> <time> <error>`                   `TSigner::encode_response_tbs`
 * `vfy  <signer> <prevmac> <remote_time> <request_time> <buf> <rdok> <parseok> <req> <first>`
                                                                           `TSigVerifier::verify`
@@ -73,6 +74,9 @@ def handle (toks : List String) : Option String :=
     let first ← parseBool first; let rdok ← parseBool rdok
     pure (showOutcome (fun v => s!"{toHex v.mac} {v.time} {v.lo} {v.hi}")
       (verifyMessageByte sg buf prev first rdok))
+  | ["ssm", buf] => do
+    let buf ← parseHex buf
+    pure (match shouldSign buf with | some b => showBool b | none => "err")
   | ["stbs", sg, reqmac, resp, oid, time, error] => do
     let sg ← parseSigner sg
     let reqmac ← parseHex reqmac; let resp ← parseHex resp
